@@ -8,7 +8,7 @@ SIZES = {"quick": 12000, "thorough": 240000}
 BATCH = 3000
 SHRINK_BUDGET = 400
 RULE = ("each case = the same traffic twice (phase A with reload ops; the op `phase B` clears all module state and runs the recorded "
-        "ops of phase A again without the reloads, at the same virtual times, answering with the list of its decisions): 1-4 resources, initial circuit-breaker (error count / error ratio), flow (throttling, warm-up, reject) and hotspot (QPS reject, per-value "
+        "ops of phase A again without the reloads, at the same virtual times, answering with the list of its decisions): 1-4 resources, initial circuit-breaker (error count / error ratio / slow-request ratio, requests with a response time), flow (throttling, warm-up, reject) and hotspot (QPS reject and throttling, per-value "
         "items) rule lists, entries with/without error at time steps from {0,1,…,retry timeout, window length}, 1-3 reloads through "
         "LoadRules / LoadRulesOfResource whose edits are add / remove / modify / duplicate / reorder / never-refusing sibling "
         "before or after an unchanged rule; non-trivial = a reload happened while some controller held state (a block or a wait "
@@ -19,14 +19,14 @@ BIG = 1_000_000
 
 
 def cb_rule(rng, rid, res, inert=False):
-    strat = 2 if inert or rng.random() < 0.8 else 1
+    strat = 2 if inert or rng.random() < 0.7 else rng.choice([0, 1])
     retry = rng.choice([1, 500, 1000, 3000, 60000])
     minreq = rng.choice([0, 1, 1, 2, 5])
     stativ = rng.choice([1000, 1000, 2000, 10000])
     buckets = rng.choice([0, 1, 2, 3, 10])
     thr = BIG if inert else (rng.choice([1, 1, 2, 3, 5]) if strat == 2 else rng.choice([0, 1]))
     probe = rng.choice([0, 0, 1, 2, 3])
-    return [rid, res, strat, retry, minreq, stativ, buckets, 0, thr, probe]
+    return [rid, res, strat, retry, minreq, stativ, buckets, rng.choice([0, 5, 50]) if strat == 0 else 0, thr, probe]
 
 
 def flow_rule(rng, rid, res, inert=False):
@@ -49,7 +49,9 @@ def hot_rule(rng, rid, res, inert=False):
     items = rng.choice([2, 2, 2, 0])
     sval, sthr = (rng.choice([1, 2, 3]), BIG if inert else rng.choice([0, 1, 4])) if items == 2 else (0, 0)
     thr = BIG if inert else rng.choice([0, 1, 1, 2, 3, 5])
-    return [rid, res, 1, 0, 0, thr, 0, rng.choice([0, 0, 1, 3]), rng.choice([1, 1, 2, 10]), rng.choice([0, 0, 100]), items, sval, sthr]
+    cb = 1 if rng.random() < 0.3 else 0
+    return [rid, res, 1, cb, 0, thr, rng.choice([0, 100, 2000]) if cb else 0, rng.choice([0, 0, 1, 3]), rng.choice([1, 1, 2, 10]),
+            rng.choice([0, 0, 100]), items, sval, sthr]
 
 
 def enc(rules):
@@ -100,16 +102,30 @@ class G:
                 new.insert(rng.randint(0, len(new)), r)
             elif k < 0.36 and others:      # remove
                 new.pop(rng.choice(others))
-            elif k < 0.52 and others:      # modify
+            elif k < 0.52 and others:      # modify one field (value from the field's own domain, so that it matters)
                 i = rng.choice(others)
-                if mod == "flow" and new[i][3] == 0:
-                    new[i][4] += 1
-                elif mod == "hot":
-                    f = rng.choice([5, 7, 8, 12])
-                    new[i][f] = rng.choice([1, 2, 3, new[i][f] + 1])
+                r = new[i]
+                if mod == "cb":
+                    dom = {3: [1, 500, 1000, 3000, 60000], 4: [0, 1, 2, 5], 5: [1000, 2000, 10000], 6: [0, 1, 2, 10], 9: [0, 1, 2, 3],
+                           8: ([1, 2, 3, 5] if r[2] == 2 else [0, 1])}
+                    if r[2] == 0:
+                        dom[7] = [0, 5, 50]
+                elif mod == "flow":
+                    dom = {4: [1, 2, 3, 5, 10, 100], 10: [0, 500, 1000, 2000, 3000]}
+                    if r[3] == 1:
+                        dom[7] = [0, 100, 500, 2000]
+                    if r[2] == 1:
+                        dom[8], dom[9] = [1, 2, 5, 10], [0, 2, 3, 5]
+                    if r[3] == 0 and r[2] == 0 and r[4] >= BIG:
+                        dom = {4: [BIG, BIG + 1, BIG + 5]}
                 else:
-                    f = rng.choice([3, 4, THR[mod], 9] if mod == "cb" else [THR[mod], 7, 10])
-                    new[i][f] = rng.choice([1, 2, 3, 1000, 2000, new[i][f] + 1])
+                    dom = {5: [0, 1, 2, 3, 5], 8: [1, 2, 10], 9: [0, 100]}
+                    dom[6 if r[3] == 1 else 7] = [0, 100, 2000] if r[3] == 1 else [0, 1, 3]
+                    if r[10] == 2:
+                        dom[12] = [0, 1, 4]
+                f = rng.choice(sorted(dom))
+                vals = [v for v in dom[f] if v != r[f]]
+                r[f] = rng.choice(vals)
             elif k < 0.62 and new:         # duplicate a rule (next to it or at the end)
                 i = rng.randrange(len(new))
                 new.insert(rng.choice([i, i + 1, len(new)]), list(new[i]))
@@ -172,6 +188,10 @@ def gen_case(rng, cid):
                 A.append(f"t {now}")
             x = hot if rng.random() < 0.7 else rng.randint(1, nres)
             arg = f" {rng.choice([0, 1, 1, 2, 3])}" if "hot" in mods else ""
+            if "cb" in mods and rng.random() < 0.4:
+                rt = rng.choice([1, 5, 6, 10, 51, 100])
+                arg = (arg or " 0") + f" {rt}"
+                now += rt
             A.append(f"e {x} {1 if rng.random() < perr else 0}{arg}")
     return Case(cid, A + ["phase B"], tags=(f"nres={nres}", "+".join(mods), f"reloads={len(reload_at)}"))
 
